@@ -492,6 +492,7 @@ func (in *Instance) ValUnbond(i int) {
 	was := in.Staking.Vals[i].Bonded
 	in.Staking.Vals[i].Bonded = false
 	if was {
+		in.Staking.Vals[i].Unbonding = true // status Unbonding for the unbonding period
 		in.Hub.Hooks().AfterValidatorBeginUnbonding(in.Ctx(), cons, oper)
 	}
 }
@@ -500,7 +501,7 @@ func (in *Instance) ValUnbond(i int) {
 func (in *Instance) ValRebond(i int) {
 	oper, cons, _ := in.valAddrs(i)
 	was := in.Staking.Vals[i].Bonded
-	in.Staking.Vals[i].Bonded = true
+	in.Staking.Vals[i].Bonded, in.Staking.Vals[i].Unbonding = true, false
 	in.Staking.Vals[i].WasJailed = false // MsgUnjail precedes re-bonding
 	if !was {
 		in.Hub.Hooks().AfterValidatorBonded(in.Ctx(), cons, oper)
